@@ -788,7 +788,8 @@ class PDFPageInterpreter:
             n = 1
 
         if n == 1:
-            gray = self.pop(1)[0]
+            values = self.pop(1)
+            gray = values[0] if values else None
             gray_f = safe_float(gray)
             if gray_f is None:
                 log.warning(
@@ -799,7 +800,7 @@ class PDFPageInterpreter:
 
         elif n == 3:
             values = self.pop(3)
-            rgb = safe_rgb(*values)
+            rgb = safe_rgb(*values) if len(values) == 3 else None
             if rgb is None:
                 log.warning(
                     f"Cannot set RGB stroke color because not all values in {values!r} can be parsed as floats"
@@ -809,7 +810,7 @@ class PDFPageInterpreter:
 
         elif n == 4:
             values = self.pop(4)
-            cmyk = safe_cmyk(*values)
+            cmyk = safe_cmyk(*values) if len(values) == 4 else None
 
             if cmyk is None:
                 log.warning(
@@ -833,7 +834,8 @@ class PDFPageInterpreter:
             n = 1
 
         if n == 1:
-            gray = self.pop(1)[0]
+            values = self.pop(1)
+            gray = values[0] if values else None
             gray_f = safe_float(gray)
             if gray_f is None:
                 log.warning(
@@ -844,7 +846,7 @@ class PDFPageInterpreter:
 
         elif n == 3:
             values = self.pop(3)
-            rgb = safe_rgb(*values)
+            rgb = safe_rgb(*values) if len(values) == 3 else None
 
             if rgb is None:
                 log.warning(
@@ -855,7 +857,7 @@ class PDFPageInterpreter:
 
         elif n == 4:
             values = self.pop(4)
-            cmyk = safe_cmyk(*values)
+            cmyk = safe_cmyk(*values) if len(values) == 4 else None
 
             if cmyk is None:
                 log.warning(
